@@ -65,6 +65,18 @@ type UserEdit struct {
 	Access   rp.Access
 	PwMode   int
 	Pw       string
+	// AccessLen: 0 = the full 8-byte access field; k > 0 = only its first k bytes; -1 = an empty access field
+	AccessLen int
+}
+
+func (e UserEdit) accessBytes() []byte {
+	switch {
+	case e.AccessLen > 0 && e.AccessLen < 8:
+		return e.Access[:e.AccessLen]
+	case e.AccessLen < 0:
+		return nil
+	}
+	return e.Access[:]
 }
 
 func subFields(fs []rp.Field) []byte {
@@ -89,14 +101,14 @@ func (c *Client) UpdateUsers(edits []UserEdit) (rp.Tran, bool) {
 				rp.F(rp.FData, rp.Obfuscate([]byte(e.Login))),
 				rp.F(rp.FUserLogin, rp.Obfuscate([]byte(e.NewLogin))),
 				rp.FS(rp.FUserName, e.Name),
-				rp.F(rp.FUserAccess, e.Access[:]),
+				rp.F(rp.FUserAccess, e.accessBytes()),
 			}
 			sf = append(sf, pwField(e.PwMode, e.Pw)...)
 		default: // create, modify
 			sf = []rp.Field{
 				rp.F(rp.FUserLogin, rp.Obfuscate([]byte(e.Login))),
 				rp.FS(rp.FUserName, e.Name),
-				rp.F(rp.FUserAccess, e.Access[:]),
+				rp.F(rp.FUserAccess, e.accessBytes()),
 			}
 			sf = append(sf, pwField(e.PwMode, e.Pw)...)
 		}
